@@ -178,6 +178,8 @@ func runC01(c *Ctx) {
 				if isIntIndexable(x.X.Type()) {
 					kind = "slice"
 				}
+			case *ssa.SliceToArrayPointer:
+				kind = "convert"
 			}
 			if kind == "" || !in.Pos().IsValid() {
 				return
